@@ -6,7 +6,8 @@ Open Scope Z_scope.
 
 Inductive obv_case :=
   OBV (cf : cfg) (seq : Z) (prev : list Z) (cache_att : res (list Z)) (should_retire : res bool)
-      (expected : gmap Z chandef) (source_vals : gmap Z sval) (source_fails : bool) (out : res (option raw_observation)).
+      (expected : gmap Z chandef) (source_vals : gmap Z sval) (source_fails : bool) (out : res (option raw_observation))
+      (t0 t1 : Z).   (* the harness's clock (ns) just before and just after the call *)
 
 Definition obs_eqb_no_ts (a b : raw_observation) : bool :=
   bool_decide (ro_att a = ro_att b) && Bool.eqb (ro_retire a) (ro_retire b) &&
@@ -15,7 +16,7 @@ Definition obs_eqb_no_ts (a b : raw_observation) : bool :=
 
 Definition obv_agrees (c : obv_case) : bool :=
   match c with
-  | OBV cf seq prev att ret expd vals fails out =>
+  | OBV cf seq prev att ret expd vals fails out _ _ =>
       match plugin_observation (fun _ => true) cf seq prev 1 att ret expd vals fails, out with
       | Ok (Some a), Ok (Some b) => obs_eqb_no_ts a b
       | Ok None, Ok None => true
@@ -27,19 +28,28 @@ Definition obv_agrees (c : obv_case) : bool :=
 (* on the implementation alone: never a panic; what it produced passes its own validation limits *)
 Definition obv_spec_ok (c : obv_case) : bool :=
   match c with
-  | OBV cf _ _ _ _ _ _ _ out =>
+  | OBV cf _ prev _ _ _ vals _ out t0 t1 =>
       match out with
       | Panic _ => false
-      | Ok (Some ob) => validate_observation (fun _ => true) (c_has_pred cf) ob
+      (* it passes validation, its timestamp is this node's clock reading, and it carries exactly the values its data
+         source returned for the streams the previous outcome's channels reference (none when retired) *)
+      | Ok (Some ob) =>
+          validate_observation (fun _ => true) (c_has_pred cf) ob && (t0 <=? ro_ts ob) && (ro_ts ob <=? t1) &&
+          match decode_outcome (c_pver cf) prev with
+          | Ok p =>
+              if bool_decide (o_stage p = Retired) then bool_decide (ro_values ob = ∅)
+              else bool_decide (ro_values ob = base.filter (fun kv : Z * sval => is_Some (unique_stream_set (o_defs p) !! fst kv)) vals)
+          | _ => true
+          end
       | _ => true
       end
   end.
 Definition obv_branch (c : obv_case) : nat :=
   match c with
-  | OBV _ _ _ _ _ _ _ _ (Ok None) => 0
-  | OBV _ _ _ _ _ _ _ _ (Ok (Some ob)) => if bool_decide (ro_updates ob = ∅) && bool_decide (ro_removes ob = []) then 1 else 2
-  | OBV _ _ _ _ _ _ _ _ (Err _) => 3
-  | OBV _ _ _ _ _ _ _ _ (Panic _) => 4
+  | OBV _ _ _ _ _ _ _ _ (Ok None) _ _ => 0
+  | OBV _ _ _ _ _ _ _ _ (Ok (Some ob)) _ _ => if bool_decide (ro_updates ob = ∅) && bool_decide (ro_removes ob = []) then 1 else 2
+  | OBV _ _ _ _ _ _ _ _ (Err _) _ _ => 3
+  | OBV _ _ _ _ _ _ _ _ (Panic _) _ _ => 4
   end%nat.
 Definition obv_eval (cs : list obv_case) : list nat * list nat * list nat :=
   (index_where (fun c => negb (obv_agrees c)) cs, index_where (fun c => negb (obv_spec_ok c)) cs,
